@@ -135,6 +135,8 @@ fn datetimes(ds: &[Val]) -> Vec<Val> {
 }
 
 /// full ordered domain of representatives of a leaf type
+const CHAR_HEAD: [u32; 11] = [0x61, 0, 0xe9, 0x7f, 0x80, 0x7ff, 0x800, 0xd7ff, 0xe000, 0xffff, 0x20ac];
+
 pub fn leaf_values(ty: &Ty) -> Vec<Val> {
     match ty {
         Ty::U8 => {
@@ -214,7 +216,7 @@ pub fn leaf_values(ty: &Ty) -> Vec<Val> {
         Ty::Bool => vec![Val::Bool(false), Val::Bool(true)],
         Ty::Unit => vec![Val::Unit],
         Ty::Char => {
-            let mut v: Vec<u32> = vec![0x61, 0, 0xe9, 0x7f, 0x80, 0x7ff, 0x800, 0xd7ff, 0xe000, 0xffff, 0x20ac];
+            let mut v: Vec<u32> = CHAR_HEAD.to_vec();
             let mut seen: std::collections::HashSet<u32> = v.iter().copied().collect();
             for c in 0..=0xffffu32 {
                 if (0xd800..=0xdfff).contains(&c) {
@@ -415,8 +417,18 @@ pub fn values(ty: &Ty, p: &Params) -> Vec<Val> {
     vals(ty, p, true, &mut scope)
 }
 
+/// like `values`, but a leaf type at the top gets the truncated domain too
+pub fn values_small(ty: &Ty, p: &Params) -> Vec<Val> {
+    let mut scope: Vec<(String, Ty, usize)> = Vec::new();
+    vals(ty, p, false, &mut scope)
+}
+
 fn vals(ty: &Ty, p: &Params, top: bool, scope: &mut Vec<(String, Ty, usize)>) -> Vec<Val> {
     if is_leaf(ty) {
+        if !top && *ty == Ty::Char && p.leaf_k <= CHAR_HEAD.len() {
+            // the same prefix without building the 63 488-element domain
+            return CHAR_HEAD[..p.leaf_k].iter().map(|c| Val::Char(*c)).collect();
+        }
         let all = leaf_values(ty);
         if top {
             return all;
